@@ -162,7 +162,7 @@ static char *vg_strdup(const char *src)
    mutating stand-ins are unreachable and queries are only checked for being valid strings).  For each call
    the stub checks the argument against vg_ref byte by byte and records its LENGTH: two verified prefixes of
    the same reference with the same length are the same string. */
-#define VG_CALLS 6
+#define VG_CALLS (VG_DUP_CAP / 2 + 3)  /* a path of n bytes has at most n/2 ancestors, plus the existence test of the path itself */
 const char *vg_ref; size_t vg_ref_len;
 unsigned vg_exists_calls, vg_mkdir_calls, vg_extract_calls, vg_fs_seq;
 size_t vg_exists_n[VG_CALLS]; LHAFileType vg_exists_ret[VG_CALLS]; unsigned vg_exists_at[VG_CALLS];
@@ -382,16 +382,10 @@ void h_extract_archived_file(void)
 	}
 	VG_CANARY("extract_archived_file");
 }
-void h_extract_archive(void)
-{
-	vg_begin();
-	(void) extract_archive(&vg_filter, &vg_options);
-	__CPROVER_assert(vg_options.dry_run ==> (vg_mkdir_calls == 0 && vg_extract_calls == 0), "C10: with 'n' extract_archive performs no mutating call");
-	VG_CANARY("extract_archive");
-}
-
 /* ---- no-mutation groups (compiled with -DVG_NO_MUTATION: the two mutating stand-ins assert(0)) */
 void h_dry_run(void) { vg_begin(); (void) extract_archive_dry_run(&vg_filter, &vg_options); VG_CANARY("extract_archive_dry_run"); }
-void h_extract_archive_n(void) { vg_begin(); __CPROVER_assume(vg_options.dry_run != 0); (void) extract_archive(&vg_filter, &vg_options); VG_CANARY("extract_archive with dry_run"); }
+/* dry_run == 1: the only non-zero value src/main.c ever stores (option 'n') */
+void h_extract_archive_n(void) { vg_begin(); vg_options.dry_run = 1; (void) extract_archive(&vg_filter, &vg_options); VG_CANARY("extract_archive with dry_run"); }
+void h_print_archive_n(void) { vg_begin(); vg_options.dry_run = 1; (void) print_archive(&vg_filter, &vg_options); VG_CANARY("print_archive with dry_run"); }
 void h_test_file_crc(void) { vg_begin(); (void) test_file_crc(&vg_filter, &vg_options); VG_CANARY("test_file_crc"); }
 void h_print_archive(void) { vg_begin(); (void) print_archive(&vg_filter, &vg_options); VG_CANARY("print_archive"); }
